@@ -1,6 +1,8 @@
 package vc
 
 import (
+	"os"
+	"runtime/debug"
 	"fmt"
 	"go/ast"
 	"go/types"
@@ -172,6 +174,9 @@ func (x *Exec) recoverUnsupported(fn *ssa.Function, err *error) {
 			*err = e
 		case error:
 			*err = fmt.Errorf("%s: %v", QualName(fn), e)
+			if os.Getenv("B6VC_DEBUG") != "" {
+				fmt.Fprintf(os.Stderr, "%v\n%s\n", e, debug.Stack())
+			}
 		default:
 			panic(r)
 		}
@@ -280,6 +285,16 @@ func (x *Exec) callSpec(st *State, fn *ssa.Function, args []Value) Value {
 		nfr.contract = ct
 	}
 	res, _ := x.ExecFunc(nfr, sub)
+	if x.specMode == 1 && len(x.specWF) > 0 {
+		fs := []*Term{st.PC}
+		for _, f := range x.specWF {
+			if !f.Bound { // facts about terms under a quantifier stay inside it (dropped here)
+				fs = append(fs, f)
+			}
+		}
+		st.PC = x.C.And(fs...)
+		x.specWF = nil
+	}
 	for k, v := range sub.Heap.comps {
 		if _, ok := st.Heap.comps[k]; !ok && strings.HasPrefix(v.Name, "H0$") {
 			st.Heap.comps[k] = v
